@@ -14,8 +14,8 @@ MEMBER_KINDS = ['method', 'amethod', 'static', 'classm', 'prop', 'decomethod', '
 # definitions inside module-level control flow that does execute on import, guards that merely mention
 # __name__, and decorators that come from other modules - explored by their own spec (smaller layout set)
 BLOCK_TOP_KINDS = ['main_else_def', 'ifnot_main_def', 'ifne_main_def', 'ifor_main_def', 'else_def', 'except_def',
-                   'finally_def', 'for_def', 'with_def', 'while_def', 'cmdef', 'lrudef', 'if_class']
-BLOCK_MEMBER_KINDS = ['cmmethod', 'cachedprop', 'if_method']
+                   'finally_def', 'for_def', 'with_def', 'while_def', 'cmdef', 'lrudef', 'if_class', 'subclass']
+BLOCK_MEMBER_KINDS = ['cmmethod', 'cachedprop', 'if_method', 'prop_deco']
 LAYOUTS = ['freeform1', 'none', 'freeform2', 'google1', 'google2', 'doctestblock', 'google_after_args', 'mixed']
 STYLES = ['auto', 'google', 'freeform']
 TOKEN_RE = re.compile(r'tok_\d+')
@@ -235,6 +235,20 @@ class Builder(object):
             self.emit('')
             self.inventory.append((name, groups))
             self.func(8, 'ikm', 'freeform1', args='self', qual=name + '.ikm')
+        elif kind == 'subclass':
+            # a documented base class and an undocumented subclass overriding a documented method without a
+            # docstring: nothing may be invented for the subclass
+            base = 'B' + n
+            self.emit('class %s(object):' % base)
+            groups = self.docstring(4, layout)
+            self.emit('    z = 0')
+            self.emit('')
+            self.inventory.append((base, groups))
+            self.func(4, 'bm', 'freeform1', args='self', qual=base + '.bm')
+            self.emit('class SB%s(%s):' % (n, base))
+            self.emit('    def bm(self):')
+            self.emit('        return 1')
+            self.emit('')
         elif kind == 'class':
             name = 'K' + n
             self.emit('class %s(object):' % name)
@@ -272,6 +286,11 @@ class Builder(object):
                 self.func(4, 'cmm' + n, layout, args='self', decorators=('contextlib.contextmanager',), qual=c + '.cmm' + n)
             elif kind == 'cachedprop':
                 self.func(4, 'cpr' + n, layout, args='self', decorators=('functools.cached_property',), qual=c + '.cpr' + n)
+            elif kind == 'prop_deco':
+                # setter / deleter carrying a second decorator *above* @<prop>.setter
+                self.func(4, 'pd' + n, layout, args='self', decorators=('property',), qual=c + '.pd' + n)
+                self.func(4, 'pd' + n, 'freeform1', args='self, v', decorators=('_deco', 'pd%s.setter' % n), collect=False)
+                self.func(4, 'pd' + n, 'freeform1', args='self', decorators=('_deco', 'pd%s.deleter' % n), collect=False)
             elif kind == 'if_method':
                 self.emit('    if True:')
                 self.func(8, 'ifm' + n, layout, args='self', qual=c + '.ifm' + n)
